@@ -13,7 +13,30 @@ UNIQUE_NOTE = 'merge_sorted / merge_err_delivered; merge_oracle for tie-order di
 EXHAUSTIVE = {}
 
 
+def gen_special(rng, tier):
+    # more chunk streams than a 16-bit index can address; only a handful are non-empty
+    for _ in range(1 if tier == 'quick' else 6):
+        k = rng.choice([65600, 70000])
+        chunks = [[] for _i in range(k)]
+        nid = 0
+        for pos in [3, 65535, 65536, 65540, k - 1, rng.randrange(k)]:
+            ks = sorted(rng.randint(0, 9) for _i in range(rng.choice([1, 3, 4])))
+            chunks[pos] = [['ok', kk, 500 + nid + i] for i, kk in enumerate(ks)]; nid += 10
+        total = sum(len(c) for c in chunks)
+        yield Case(sx.dump(['kmerge', 0, ['chunks'] + chunks, total + 3, 'exact']), True, 'wide-fan-in')
+    # one chunk supplies a long streak of consecutive outputs, then holds an error: at every position of the streak
+    for L in ([9, 12] if tier == 'quick' else [8, 9, 12, 20, 40]):
+        for pos in range(L + 1):
+            for rev in (0, 1):
+                run = [['ok', (1 if not rev else 9), 100 + i] for i in range(L)]
+                run.insert(pos, ['err', 7])
+                other = [['ok', 5, 300], ['ok', 5, 301]]
+                chunks = [other, run, [['ok', 5, 302]]]
+                yield Case(sx.dump(['kmerge', rev, ['chunks'] + chunks, L + 6, 'exact']), True, 'streak-then-error')
+
+
 def gen(rng, tier):
+    yield from gen_special(rng, tier)
     n = 3000 if tier == 'quick' else 60000
     nid = 0
     for _ in range(n):
